@@ -198,6 +198,25 @@ theorem history_observed {n k : Nat} (hn : 1 ≤ n) (hcap : Cap n) (ops : List O
     (hd : ops.all (Op.inDomain n k) = true) : runCase n k ops = .ok (specRunCase n k ops) :=
   runCase_refines hn hcap ops (fun op ho => List.all_eq_true.1 hd op ho)
 
+/-! ### wave 4: the array-backed observation path the driver executes -/
+
+/-- The functions the driver executes (`runCaseFast`, `specRunCaseFast` in `Model/Bitset.lean`: the words of a register, and the words of a
+    `load`ed set, are converted to an array once per observation instead of being walked as a list for every index) are the model's `runCase`
+    and the specification's `specRunCase` — for every capacity, register count and history, in the stated domain or not (panics included). -/
+theorem fast_path_eq (n k : Nat) (ops : List Op) :
+    runCaseFast n k ops = runCase n k ops ∧ specRunCaseFast n k ops = specRunCase n k ops :=
+  ⟨runCaseFast_eq n k ops, specRunCaseFast_eq n k ops⟩
+
+/-- One register observation through the array (`test` on every index, the collected iterator, the probes, the rendering) is `observeReg`. -/
+theorem observeRegFast_eq (n : Nat) (b : Bits) : observeRegFast n b = observeReg n b := by
+  rw [observeReg_eq_fast]
+
+/-- **The driver's tie for what the driver literally runs**: `M = S` whenever the driver prints `S ≠ any`. -/
+theorem history_observed_fast {n k : Nat} (hn : 1 ≤ n) (hcap : Cap n) (ops : List Op)
+    (hd : ops.all (Op.inDomain n k) = true) : runCaseFast n k ops = .ok (specRunCaseFast n k ops) := by
+  rw [runCaseFast_eq, specRunCaseFast_eq]
+  exact history_observed hn hcap ops hd
+
 /-- The representation invariant (`n` words, each a `u64`) holds after every in-domain history. -/
 theorem invariant_preserved {n k : Nat} (hn : 1 ≤ n) (ops : List Op)
     (hd : ∀ op, op ∈ ops → op.inDomain n k = true) :
@@ -267,5 +286,15 @@ example : maxByKey (· % 64) [3, 63, 64, 70, 127] = some 127 ∧ minByKey (· % 
 example : leftAfter (fun x => decide (64 ≤ x)) [3, 63, 64, 70, 127] = 2 ∧ leftAfter (fun x => decide (200 ≤ x)) [3, 63] = 0 := by
   decide +kernel
 example : everyThird 0 [3, 63, 64, 70, 127] = [3, 70] ∧ reduce3 [3, 63, 64] = some 280 ∧ foldHash [] = 7 := by decide +kernel
+
+-- wave 4: the array-backed path evaluates (non-vacuity of `fast_path_eq`), capacities at and beyond the 256-word / 512-word boundaries are in the domain
+example : (runCaseFast 2 2 [.set 0 63, .obs 0, .set 0 64, .obs 0, .xor 1 0 0]).map (fun o => (o.olog.map (·.iter), o.nes)) =
+    .ok ([[63], [63, 64]], [[false, true], [true, false]]) := by decide +kernel
+example : (observeRegFast 3 [2 ^ 63, 0, 2 ^ 63]).map (fun o => (o.count, o.iter, o.probes.map (·.rest))) =
+    .ok (2, [63, 191], [[63, 191], [191], [], []]) := by decide +kernel
+example : (specRunCaseFast 2 1 [.load 0 [2 ^ 63, 1]]).regs.map (·.iter) = [[63, 64]] := by decide +kernel
+example : ([Op.set 0 16383, .obs 0, .set 1 16384, .xor 2 0 1, .flip 0 16447]).all (Op.inDomain 257 3) = true := by decide +kernel
+example : ([Op.set 0 32767, .set 0 32768, .obs 0, .set 1 32831, .or 1 0 1]).all (Op.inDomain 513 2) = true := by decide +kernel
+example : Cap 256 ∧ Cap 257 ∧ Cap 512 ∧ Cap 513 := by unfold Cap; omega
 
 end Rlib.C12
